@@ -15,7 +15,7 @@ func init() {
 	Register(&PropDef{
 		ID: "C18", Title: "lifecycle, security events, retransmission discipline",
 		Config: c18Config, Run: c18Run, MaxSteps: 100,
-		Rule: "runs = PRNG-generated lifecycle histories on both sides in any order (start, complete or abandon AKE, Send in every state, End, peer End, genuine and injected OTR error messages, refresh while encrypted, restart of the peer, message loss, ticks) under PRNG-chosen policy sets; after every call the model's state, the class of Send's outcome, the security events raised, and the per-text transmission count (decoded with the shadow reference's keys) are compared; " +
+		Rule: "runs = PRNG-generated lifecycle histories on both sides in any order (start, complete or abandon AKE, Send in every state, End, peer End, genuine and injected OTR error messages, refresh while encrypted, restart of the peer, message loss, ticks, in a quarter of the runs single failures of the randomness source) under PRNG-chosen policy sets; after every call the model's state, the class of Send's outcome, the security events raised, and the per-text transmission count (decoded with the shadow reference's keys) are compared; " +
 			"non-trivial = a party went through encrypted and (finished or ended) and at least 4 texts were accounted; distinct = distinct (policies, step sequence) signatures",
 		Assume: []string{"one side starts at a time (simultaneous starts are C07's known finding)", "transmission accounting uses the shadow reference to decrypt emitted data messages; messages it cannot decode (shadow out of sync after an attacker-free but lossy history) are counted and skipped"},
 	})
@@ -28,6 +28,7 @@ func c18Config(rc *RunCtx) {
 	pa, pb := v|r.Intn(16)<<2, v|r.Intn(16)<<2
 	rc.Cfg["polA"], rc.Cfg["polB"] = pa, pb
 	rc.Parties = []PartyCfg{{KeyIdx: 0, Pol: pa, Peer: 1, ErrHandler: r.Chance(2, 3)}, {KeyIdx: 1, Pol: pb, Peer: 0, ErrHandler: r.Chance(2, 3)}}
+	rc.Cfg["randfault"] = r.Intn(4) / 3 // a quarter of the runs: single reads of a party's randomness source fail
 }
 
 type c18Text struct {
@@ -62,7 +63,11 @@ func c18Run(rc *RunCtx) *Violation {
 			viol = rc.Viol(rule, detail, shape)
 		}
 	}
+	callKind := map[int]string{}
+	firedSeen := [2]int{}
+	mayLose := [2]map[int]bool{{}, {}} // queued texts whose release was interrupted by an injected fault: later or never
 	w.Observers = append(w.Observers, func(p *Party, r *CallResult) {
+		callKind[r.Seq] = r.Kind
 		if viol != nil {
 			return
 		}
@@ -107,6 +112,11 @@ func c18Run(rc *RunCtx) *Violation {
 				for _, t := range vd.Delivery.TLVs {
 					peerEnd = peerEnd || t.Type == refotr.TLVDisconnected
 				}
+			}
+			if x := w.CurWire; x != nil && x.Genuine && x.Call >= 0 && callKind[x.Call] == "end" && r.Kind == "recv" {
+				// provenance: this is the message the peer's End() produced (the shadow may have lost the
+				// party, e.g. after a failed read of the randomness source)
+				peerEnd = true
 			}
 			if r.Kind != "end" && !peerEnd {
 				fail("lifecycle.left-encrypted", fmt.Sprintf("%s left the encrypted state in a %s call that is neither End() nor the delivery of the peer's disconnect (shadow verdict %+v; divergences %v)", p.Name, r.Kind, o.Verdict[r.Seq], o.Div), map[string]string{"call": r.Kind})
@@ -238,7 +248,7 @@ func c18Run(rc *RunCtx) *Violation {
 				// released: must be in order, inside a data message, in a session
 				if !om.otr {
 					fail("transmit.queued-clear", fmt.Sprintf("%s released a queued text in clear", p.Name), nil)
-				} else if len(m.queue) == 0 || m.queue[0] != ti {
+				} else if skipLost(m, mayLose[p.Idx], ti); len(m.queue) == 0 || m.queue[0] != ti {
 					fail("transmit.queue-order", fmt.Sprintf("%s released queued text number %d out of order (queue %v)", p.Name, ti, m.queue), nil)
 				} else {
 					m.queue = m.queue[1:]
@@ -263,7 +273,23 @@ func c18Run(rc *RunCtx) *Violation {
 			}
 		}
 		// texts queued while waiting for encryption go out when the session starts
-		if r.HasEvent("sec", "GoneSecure") && len(m.queue) > 0 && skipped == skippedBefore[p.Idx] {
+		if p.Rand != nil && p.Rand.Fired > firedSeen[p.Idx] {
+			// the injected fault hit this very call: the operation may fail and what it was about to
+			// send may be lost or stay queued (never sent twice, never sent in clear - those rules stay);
+			// the texts given to Send so far are taken out of the "must go out now" rule
+			firedSeen[p.Idx] = p.Rand.Fired
+			for _, qi := range m.queue {
+				mayLose[p.Idx][qi] = true
+			}
+			rc.Probe("rand_fault_hit_a_call")
+		}
+		demanded := 0
+		for _, qi := range m.queue {
+			if !mayLose[p.Idx][qi] {
+				demanded++
+			}
+		}
+		if r.HasEvent("sec", "GoneSecure") && demanded > 0 && skipped == skippedBefore[p.Idx] {
 			fail("queued.lost", fmt.Sprintf("%s entered a session with %d text(s) queued under require-encryption, but did not send them (queue %v)", p.Name, len(m.queue), m.queue), nil)
 			return
 		}
@@ -274,8 +300,11 @@ func c18Run(rc *RunCtx) *Violation {
 		r := rc.Rng
 		fly := [2]int{w.InFlight(0, 1), w.InFlight(1, 0)}
 		encA, encB := w.P[0].Conv.IsEncrypted(), w.P[1].Conv.IsEncrypted()
-		// query sendA sendB delAB delBA tick end drop errinj refresh crash
-		wt := []int{0, 10, 10, 16, 16, 2, 2, 1, 1, 0, 1}
+		// query sendA sendB delAB delBA tick end drop errinj refresh crash randfault
+		wt := []int{0, 10, 10, 16, 16, 2, 2, 1, 1, 0, 1, 0}
+		if rc.Cfg["randfault"] == 1 {
+			wt[11] = 2
+		}
 		if fly[0] == 0 {
 			wt[3] = 0
 		}
@@ -315,6 +344,8 @@ func c18Run(rc *RunCtx) *Violation {
 			return Step{K: "errinj", A: r.Intn(2)}, true
 		case 9:
 			return Step{K: "refresh", A: r.Intn(2)}, true
+		case 11:
+			return Step{K: "randfault", A: r.Intn(2), B: r.Intn(4), C: r.Intn(4)}, true
 		default:
 			return Step{K: "crash", A: r.Intn(2), B: r.Intn(2)}, true
 		}
@@ -343,6 +374,11 @@ func c18Run(rc *RunCtx) *Violation {
 		case "errinj":
 			to := s.A % 2
 			w.Put(1-to, to, []byte("?OTR Error: injected"), false, -1, -1, "error-injection")
+		case "randfault":
+			// one of the next multi-byte reads of this party's randomness source fails (once)
+			q := w.P[s.A%2]
+			q.Rand.FailAt, q.Rand.Mode = q.Rand.reads+s.B%4, 1+s.C%4
+			w.Fault("rand-read-fails")
 		case "crash":
 			i := s.A % 2
 			w.Crash(i, s.B%2 == 1)
@@ -385,4 +421,11 @@ func mi2text(o *Omni, raw []byte) []byte {
 		return mi.Text
 	}
 	return nil
+}
+
+// skipLost drops from the head of the queue the texts that an injected fault may have lost, up to text ti.
+func skipLost(m *c18Model, may map[int]bool, ti int) {
+	for len(m.queue) > 0 && m.queue[0] != ti && may[m.queue[0]] {
+		m.queue = m.queue[1:]
+	}
 }
